@@ -53,6 +53,7 @@ type c16World struct {
 	reimports   int  // how often issuer i2 was deleted and imported again (new issuer id each time)
 	colliders   int  // imported foreign CAs whose own serial equals that of a leaf issued here
 	keyless     *c16Cert // a subordinate CA certificate signed by i2 and imported WITHOUT its key
+	defaultIss  string              // issuer the harness made the mount's default ("" = as created: i1)
 	subCAs      map[string]*c16Cert // keyed intermediates created inside the mount: int1 (signed by i2), int2 (signed by int1)
 	deltaRotatedSinceRevoke bool
 	rotatedSinceRevoke bool
@@ -362,7 +363,7 @@ type c16Op struct {
 func (o c16Op) String() string { return fmt.Sprintf("%s(%d)", o.Kind, o.Arg) }
 
 func c16Alphabet(ncerts int) []c16Op {
-	out := []c16Op{{"issue", 1}, {"issue", 2}, {"rotate", 0}, {"tidy", 0}, {"auto-rebuild", 1}, {"auto-rebuild", 0}, {"delete-issuer2", 0}, {"restart", 0}, {"reimport-issuer2", 0}, {"delta", 1}, {"delta", 0}, {"rotate-delta", 0}, {"import-colliding-ca", 0}, {"import-keyless-sub", 0}, {"revoke-keyless-sub", 0}, {"add-int", 1}, {"add-int", 2}, {"revoke-int", 1}, {"revoke-int", 2}}
+	out := []c16Op{{"issue", 1}, {"issue", 2}, {"rotate", 0}, {"tidy", 0}, {"auto-rebuild", 1}, {"auto-rebuild", 0}, {"delete-issuer2", 0}, {"restart", 0}, {"reimport-issuer2", 0}, {"delta", 1}, {"delta", 0}, {"rotate-delta", 0}, {"import-colliding-ca", 0}, {"import-keyless-sub", 0}, {"revoke-keyless-sub", 0}, {"add-int", 1}, {"add-int", 2}, {"revoke-int", 1}, {"revoke-int", 2}, {"reissue-i1", 0}, {"set-default", 1}, {"set-default", 2}, {"set-default", 3}}
 	for i := 0; i < ncerts; i++ {
 		out = append(out, c16Op{"revoke", i})
 	}
@@ -514,6 +515,36 @@ func (w *c16World) apply(t *testing.T, op c16Op) (string, string) {
 			return "rotate-failed", txt
 		}
 		w.rotatedSinceRevoke = true
+	case "reissue-i1":
+		// issuer 1 is re-issued on its existing key with the same subject (i1b): the two are
+		// equivalent issuers and share one CRL
+		if w.issuers["i1b"] != nil {
+			break
+		}
+		ri, ei := w.s.Req(w.s.Root, logical.ReadOperation, "pki/issuer/i1", nil)
+		if !OK(ri, ei) || ri == nil {
+			return "issuer-unreadable", ErrText(ri, ei)
+		}
+		rr, er := w.s.Req(w.s.Root, logical.UpdateOperation, "pki/issuers/generate/root/existing", map[string]interface{}{
+			"key_ref": fmt.Sprint(ri.Data["key_id"]), "common_name": "root i1", "issuer_name": "i1b", "ttl": "8760h"})
+		if !OK(rr, er) || rr == nil {
+			return "reissue-failed", "re-issuing issuer 1 on its existing key: " + ErrText(rr, er)
+		}
+		c, perr := parseCertPEM(fmt.Sprint(rr.Data["certificate"]))
+		if perr != nil {
+			t.Fatalf("harness: %v", perr)
+		}
+		w.issuers["i1b"] = c
+	case "set-default":
+		name := []string{"", "i1", "i1b", "i2"}[op.Arg]
+		if w.issuers[name] == nil || w.issuerGone[name] {
+			break
+		}
+		resp, err := w.s.Req(w.s.Root, logical.UpdateOperation, "pki/config/issuers", map[string]interface{}{"default": name})
+		if !OK(resp, err) {
+			return "config-failed", "config/issuers default=" + name + ": " + ErrText(resp, err)
+		}
+		w.defaultIss = name
 	case "add-int":
 		// a keyed intermediate CA created inside the mount: int1 is signed by issuer i2, int2 by
 		// int1 (generate CSR -> sign-intermediate -> import the certificate next to its key)
@@ -655,7 +686,7 @@ func (w *c16World) canon() string {
 		parts = append(parts, fmt.Sprintf("%s:%v", c.issuer, c.revoked))
 	}
 	sort.Strings(parts)
-	return fmt.Sprintf("%v auto=%v rot=%v gone=%v delta=%v drot=%v reimports=%d", parts, w.autoRebuild, w.rotatedSinceRevoke, w.issuerGone["i2"], w.delta, w.deltaRotatedSinceRevoke, w.reimports) + fmt.Sprintf(" colliders=%d", w.colliders) + fmt.Sprintf(" keyless=%v/%v", w.keyless != nil, w.keyless != nil && w.keyless.revoked) + fmt.Sprintf(" int1=%v/%v int2=%v/%v", w.subCAs["int1"] != nil, w.subCAs["int1"] != nil && w.subCAs["int1"].revoked, w.subCAs["int2"] != nil, w.subCAs["int2"] != nil && w.subCAs["int2"].revoked)
+	return fmt.Sprintf("%v auto=%v rot=%v gone=%v delta=%v drot=%v reimports=%d", parts, w.autoRebuild, w.rotatedSinceRevoke, w.issuerGone["i2"], w.delta, w.deltaRotatedSinceRevoke, w.reimports) + fmt.Sprintf(" colliders=%d", w.colliders) + fmt.Sprintf(" keyless=%v/%v", w.keyless != nil, w.keyless != nil && w.keyless.revoked) + fmt.Sprintf(" i1b=%v default=%s", w.issuers["i1b"] != nil, w.defaultIss) + fmt.Sprintf(" int1=%v/%v int2=%v/%v", w.subCAs["int1"] != nil, w.subCAs["int1"] != nil && w.subCAs["int1"].revoked, w.subCAs["int2"] != nil, w.subCAs["int2"] != nil && w.subCAs["int2"].revoked)
 }
 
 // c16KeylessSub builds a subordinate CA certificate signed with issuer i2's key (from the
@@ -781,7 +812,12 @@ func TestVerifC16(t *testing.T) {
 			n int
 		}
 		// two starting configurations: the default one and delta CRLs enabled (auto_rebuild + enable_delta)
-		frontier := []node{{nil, 0}, {[]c16Op{{"delta", 1}}, 0}}
+		// ... and a pre-state that takes six steps to reach: a revoked leaf of issuer 2 whose issuer
+		// was then removed (an "unassigned" revocation, carried by the default issuer's CRL), a
+		// revoked leaf of issuer 1, and issuer 1 re-issued on its key (two equivalent issuers
+		// sharing one CRL)
+		frontier := []node{{nil, 0}, {[]c16Op{{"delta", 1}}, 0},
+			{[]c16Op{{"issue", 2}, {"revoke", 0}, {"delete-issuer2", 0}, {"issue", 1}, {"revoke", 1}, {"reissue-i1", 0}}, 2}}
 		for d := 0; d < depth; d++ {
 			var next []node
 			for _, nd := range frontier {
